@@ -325,6 +325,22 @@ CvIntegrate ==
      LET c == AsCurve(heap[a.obj]) IN
      Step([name |-> "CvIntegrate"] @@ a, heap, Ret("ok", IntegralClosedForm(c)))
 
+(* Integrate.function(U, u -> u^k, method, nnodes) with k < nnodes: exact integral of the monomial *)
+IntegrateFn ==
+  \E a \in ArgsOf("IntegrateFn", heap, depth) :
+     LET U == heap[a.obj].U IN
+     Step([name |-> "IntegrateFn"] @@ a, heap,
+          Ret("ok", Div(Sub(RPow(Umax(U), a.k + 1), RPow(Umin(U), a.k + 1)), R(a.k + 1))))
+
+(* Integrate.lenght of a polyline: ret = squared lengths of the segments (the harness adds the roots) *)
+GeoLength ==
+  \E a \in ArgsOf("GeoLength", heap, depth) :
+     LET c == a.curve ks == Knots(c.U) IN
+     /\ heap' = heap /\ act' = [name |-> "GeoLength"] @@ a /\ depth' = depth + 1 /\ UNCHANGED memo
+     /\ ret' = Ret("ok", [i \in 1..(Len(ks) - 1) |->
+                   Dist2(PX(c, ks[i]), PY(c, ks[i]),
+                         LeftLimit(Poly(c.U, c.X), ks[i + 1]), LeftLimit(Poly(c.U, c.Y), ks[i + 1]))])
+
 (* memo tables of quadrature rules.  fn in {"nodes_closed","nodes_open","nodes_cheby","nodes_gauss", *)
 (* "w_closed","w_open","w_cheby","w_gauss"}; the tables only grow, answers depend on (fn, n) only *)
 MemoAfter(m, fn, n) ==
@@ -384,7 +400,7 @@ Next == /\ depth < MaxDepth
            \/ CvKnotRemove \/ CvDegreeDecrease \/ CvClean \/ CvJoin \/ CvArith \/ CvScalar
            \/ CvEq \/ CvCopy \/ CvFraction \/ CvSetCtrlpoints \/ CvSetKnotvector \/ CvSplitTake
            \/ KvGen \/ CvDerivate \/ CvIntegrate \/ MemoRequest \/ CvFitCurve \/ CvFitPoints \/ CvFitFunction
-           \/ GeoProject \/ GeoIntersect
+           \/ GeoProject \/ GeoIntersect \/ IntegrateFn \/ GeoLength
 
 Spec == Init /\ [][Next]_vars
 
@@ -403,6 +419,11 @@ WellFormed == \A o \in DOMAIN heap : ObjWellFormed(heap[o])
 
 (* C03 / C15: a refused operation is a no-op                                *)
 FailedIsNoOp == [][ret'.class # "ok" => heap' = heap]_vars
+
+(* C15: an operation on one object never changes any other object of the heap (operands of binary    *)
+(* operations are given by value and compared by the harness)                                        *)
+OthersUntouched ==
+  [][\A o \in DOMAIN heap : (("obj" \in DOMAIN act') /\ o # act'.obj /\ act'.name # "CvSplitTake") => heap'[o] = heap[o]]_vars
 
 (* C04: insertion preserves the function and produces the requested knots   *)
 InsertPreserves ==
@@ -444,6 +465,16 @@ InterProps ==
         /\ \A x \in KnotSet(U) \cup KnotSet(V) :
               MultOf(W, x) = (IF MultOf(U, x) < MultOf(V, x) THEN MultOf(U, x) ELSE MultOf(V, x))
         /\ InterKV(V, U).kv = W /\ InterKV(U, U).kv = U]_vars
+
+(* C18: shift / scale / normalize keep degree, npts and every multiplicity, map every knot affinely *)
+AffineProps ==
+  [][(act'.name \in {"KvShift", "KvScale", "KvNormalize"} /\ ret'.class = "ok") =>
+        LET U == heap[act'.obj].U V == heap'[act'.obj].U IN
+        /\ Len(V) = Len(U) /\ Deg(V) = Deg(U) /\ Npts(V) = Npts(U)
+        /\ \A i \in DOMAIN U : MultOf(V, V[i]) = MultOf(U, U[i])
+        /\ (act'.name = "KvNormalize" => Limits(V) = <<Zero, One>>)
+        /\ \E s \in {Div(Sub(Umax(V), Umin(V)), Sub(Umax(U), Umin(U)))} :
+              Sign(s) > 0 /\ \A i \in DOMAIN U : V[i] = Add(Umin(V), Mul(s, Sub(U[i], Umin(U))))]_vars
 
 (* C17: | and & results *)
 UnionProps ==
